@@ -88,6 +88,8 @@ AnnMenu == <<
      Ann(<<Rule("minLength", RNum(Big))>>, 0),
      Ann(<<Rule("enum", RList(<< RStr("Tom"), RStr("b") >>))>>, 0),
      Ann(<<Rule("type", RStr("string"))>>, 2),
+     \* `or` whose elements are rule-sets and names of format types
+     Ann(<<Rule("or", RList(<< RSet(<<Rule("type", RStr("datetime"))>>), RSet(<<Rule("type", RStr("string")), Rule("maxLength", RNum("10"))>>), RStr("email"), RSet(<<Rule("type", RStr("uuid"))>>) >>))>>, 1),
      \* a pattern that does not compile: the project is refused (C16 judges the diagnostic)
      Ann(<<Rule("regex", RStr("[T"))>>, 0) >>,
   \* "q\"x"
